@@ -178,7 +178,9 @@ pub fn finish(
     extra: Value,
 ) -> i32 {
     let known = load_known(ctx);
-    for f in &floors {
+    // a replay (or a hand-picked single scenario) is not a coverage claim: floors do not apply
+    let single = ctx.replay.is_some() || std::env::var("VERIF_ONLY").is_ok();
+    for f in floors.iter().filter(|_| !single) {
         if f.have < f.need {
             out.inconclusive.push(format!("floor not reached: {} = {} < {}", f.what, f.have, f.need));
         }
@@ -250,7 +252,8 @@ pub fn finish(
     });
     let evdir = ctx.verif_dir.join("evidence");
     let _ = std::fs::create_dir_all(&evdir);
-    let evpath = evdir.join(format!("{}.json", ctx.prop));
+    // a replay / single scenario is not evidence of coverage: it gets its own file
+    let evpath = evdir.join(if single { format!("{}.replay.json", ctx.prop) } else { format!("{}.json", ctx.prop) });
     std::fs::write(&evpath, serde_json::to_string_pretty(&ev).unwrap()).expect("write evidence");
     println!(
         "{} {} seed={} verdict={} evaluations={} distinct_nontrivial={} violations={} known_hits={} wall={:.1}s",
